@@ -37,7 +37,13 @@ class Gen:
         self.notations={}  # name -> (args, body)
         for i in range(r.randint(0,2)):
             k=r.choice([1,2]); args=tuple(r.sample(self.vars,k))
-            self.notations['\\n%d'%i]=(args,self.rterm(2,list(args),allow_not=list(self.notations)))
+            body=self.rterm(2,list(args),allow_not=list(self.notations))
+            if r.random()<0.5:
+                # directed bodies: a bare built-in connective over the parameters in swapped / repeated / projected order
+                x=args[0]; y=args[-1]
+                cands=[('\\imp',y,x),('\\imp',x,x),('\\imp',x,y),('\\imp',y,y)]+([('\\app',y,x),('\\app',x,x),('\\app',x,y)] if self.use_app else [])
+                body=r.choice(cands)
+            self.notations['\\n%d'%i]=(args,body)
         self.axioms={}; self.rules={}
         for i in range(r.randint(1,3)):
             self.axioms['ax-%d'%i]=self.rterm(2,self.vars if r.random()<0.6 else [])
